@@ -133,58 +133,80 @@ func c05Leaf(c *Ctx, r *Report, a *Anchors) {
 	}
 	r.check("C05.NILOBJ", fnName(fn)+": a nil object yields the untyped nil", fn.Pos(), okNil, "a typed nil pointer handed on is printed as \"<nil>\" by the JSON writer")
 	// list resolver: appended values
-	lf := a.list
 	k := 0
-	perArm := map[string]int{}
-	for _, ci := range callsIn(lf) {
-		call, ok := ci.(*ssa.Call)
-		if !ok || !isBuiltinCall(call, "append") {
+	// the list resolver and the helpers it hands the walking of a list to (package functions it calls that
+	// return the result value first and build []interface{} lists themselves)
+	lfs := []*ssa.Function{a.list}
+	for _, ci := range callsIn(a.list) {
+		cal := ci.Common().StaticCallee()
+		if cal == nil || !c.inPkg(cal) || cal == a.dispatch || cal == a.list || len(cal.Blocks) == 0 {
 			continue
 		}
-		sl, ok := call.Type().Underlying().(*types.Slice)
-		if !ok {
+		if res := cal.Signature.Results(); res.Len() == 0 || !isEmptyIface(res.At(0).Type()) {
 			continue
 		}
-		if it, ok := sl.Elem().Underlying().(*types.Interface); !ok || it.NumMethods() != 0 {
-			continue
+		dup := false
+		for _, f := range lfs {
+			if f == cal {
+				dup = true
+			}
 		}
-		elems, known := sliceLitElems(call.Call.Args[1])
-		if !known {
-			continue
+		if !dup {
+			lfs = append(lfs, cal)
 		}
-		for _, e := range elems {
-			k++
-			arm := armOf(call.Block())
-			perArm[arm]++
-			ls, _ := phiLeaves(e)
-			okAll := true
-			desc := ""
-			for _, l := range ls {
-				d, ok := classify(l.val)
-				if !ok {
-					// the element obtained from an accessor that failed: nil-able raw value from AnyResolver.Nth on the error path
-					if ex, isEx := l.val.(*ssa.Extract); isEx {
-						if cl, isCall := ex.Tuple.(*ssa.Call); isCall && cl.Call.IsInvoke() && cl.Call.Method.Name() == "Nth" && l.pred != nil {
-							errv := extractOf(cl, 1)
-							guardedErr := false
-							for _, g := range edgeGuards(l.pred, l.phi.Block()) {
-								if errv != nil && guardSaysNonNil(g, errv) {
-									guardedErr = true
+	}
+	for _, lf := range lfs {
+		perArm := map[string]int{}
+		for _, ci := range callsIn(lf) {
+			call, ok := ci.(*ssa.Call)
+			if !ok || !isBuiltinCall(call, "append") {
+				continue
+			}
+			sl, ok := call.Type().Underlying().(*types.Slice)
+			if !ok {
+				continue
+			}
+			if it, ok := sl.Elem().Underlying().(*types.Interface); !ok || it.NumMethods() != 0 {
+				continue
+			}
+			elems, known := sliceLitElems(call.Call.Args[1])
+			if !known {
+				continue
+			}
+			for _, e := range elems {
+				k++
+				arm := armOf(call.Block())
+				perArm[arm]++
+				ls, _ := phiLeaves(e)
+				okAll := true
+				desc := ""
+				for _, l := range ls {
+					d, ok := classify(l.val)
+					if !ok {
+						// the element obtained from an accessor that failed: nil-able raw value from AnyResolver.Nth on the error path
+						if ex, isEx := l.val.(*ssa.Extract); isEx {
+							if cl, isCall := ex.Tuple.(*ssa.Call); isCall && cl.Call.IsInvoke() && cl.Call.Method.Name() == "Nth" && l.pred != nil {
+								errv := extractOf(cl, 1)
+								guardedErr := false
+								for _, g := range edgeGuards(l.pred, l.phi.Block()) {
+									if errv != nil && guardSaysNonNil(g, errv) {
+										guardedErr = true
+									}
+								}
+								if guardedErr {
+									d = "accessor's value on its error path"
+									okAll = false
+									desc = d
+									continue
 								}
 							}
-							if guardedErr {
-								d = "accessor's value on its error path"
-								okAll = false
-								desc = d
-								continue
-							}
 						}
+						okAll = false
+						desc = d
 					}
-					okAll = false
-					desc = d
 				}
+				r.check("C05.LEAF", fmt.Sprintf("%s: list element (%s) #%d", fnName(lf), arm, perArm[arm]), call.Pos(), okAll, "a list element is appended without coercion to the element type: "+desc)
 			}
-			r.check("C05.LEAF", fmt.Sprintf("%s: list element (%s) #%d", fnName(lf), arm, perArm[arm]), call.Pos(), okAll, "a list element is appended without coercion to the element type: "+desc)
 		}
 	}
 	r.floor("C05.LEAF", "values appended to result lists", k, 3)
